@@ -136,7 +136,7 @@ class Shape:
             elif isinstance(obj, int):
                 return Shape(obj)
             elif isinstance(obj, range):
-                if len(obj) == 0:
+                if not obj: # `len(obj)` overflows for ranges longer than `sys.maxsize`
                     return Shape(0)
                 signed = obj[0] < 0 or obj[-1] < 0
                 width  = max(bits_for(obj[0], signed),
